@@ -112,7 +112,7 @@ def check_movement(res: Result, repo):
         want = canon_carried({c for c in want if isinstance(c, tuple)})
         if got == want:
             res.ok(rule, {"function": name, "comparisons": _show(got)}, nontrivial=name)
-        elif not got and any(call_name(c_) in expected or call_name(c_) in mv.functions for c_ in calls_in(fa.fi.node)):
+        elif not got and name in ("crossover", "crossunder") and any(call_name(c_) in ("above", "below") for c_ in calls_in(fa.fi.node)):
             # nothing was seen at all although the function delegates to other movement functions: the callee could not be followed
             res.errors.append(f"{fa.fi.where} {rule} {name}: no comparison on readings could be extracted through the movement functions it calls; the rule cannot decide it")
         else:
